@@ -3,6 +3,7 @@ C15 — Optimisation-based measures are feasible, self-consistent and within bou
 """
 import itertools
 import math
+import random
 from fractions import Fraction
 from types import MethodType
 
@@ -15,6 +16,12 @@ from env import import_dit
 
 CLASSES = ['ITC', 'IDTC', 'ICAEKL', 'IB', 'RDH', 'OWSKAR', 'SC', 'DW-TC', 'DW-CAEKL', 'DW-CO', 'DW-DTC', 'MIN-ITC',
            'WYNER', 'EXACT']
+
+
+# kinds of parameter vectors a sweep can continue with ('optimum' = the vector returned by a short optimize() run on
+# the same optimiser object: the object has then been through a whole search before it is asked again)
+OPTIMUM_MAX_SIZE = 12
+SWEEP_KINDS = ['random', 'uniform', 'copy', 'constant', 'zero-rows', 'random', 'optimum']
 
 
 def H(t):
@@ -43,8 +50,18 @@ class C15(object):
             "auxiliary variable conditionally independent of its non-parents given its declared parents, "
             "objective / rate / distortion / complexity / relevance = the named quantity recomputed from the joint, "
             "construct_distribution(x); the functional wrappers against their bounds (few in the quick tier). "
-            "Non-trivial = an auxiliary alphabet of size >= 2 and a non-constant channel")
-    tolerances = {'joint entries': '1e-12', 'objective = definition': '1e-9', 'bounds on optimised values': '1e-4'}
+            "Every case is a sweep: the same optimiser object is then evaluated at 0-3 further vectors (the same kinds, "
+            "and, for at most %d parameters, the optimum returned by a short optimize() run on that object), either through fresh arrays or "
+            "through ONE parameter buffer refilled in place and handed to every entry point, and every clause is "
+            "required at every point of the sweep (what a vector yields does not depend on what was evaluated before "
+            "or on which array object carries it). At every point construct_full_joint(x) summed over the original "
+            "variables = construct_joint(x); for the Markov-variable optimisers constraint_match_joint(x) = "
+            "100 |restriction - input|^2 with the input tabulated from the case, and the objective = the named "
+            "quantity evaluated on construct_distribution(x). "
+            "Non-trivial = an auxiliary alphabet of size >= 2 and a non-constant channel") % OPTIMUM_MAX_SIZE
+    tolerances = {'joint entries': '1e-12', 'objective = definition': '1e-9', 'bounds on optimised values': '1e-4',
+                  'construct_full_joint marginal = construct_joint': '1e-12',
+                  'constraint_match_joint = 100 |restriction - input|^2': '1e-9'}
     exhaustive = {}
     case_timeout = 40
     modelled = ("the Markov-variable optimisers (Wyner, exact common information) are compared with the same model construction "
@@ -52,7 +69,10 @@ class C15(object):
 
     def gen(self, rng, tier):
         n_cases = 70 if tier == 'quick' else 4000
-        for i in range(n_cases):
+        # the quick tier ends with one round through all optimiser classes in which every class is swept through a
+        # reused parameter buffer (among 70 random cases some class would otherwise miss that combination)
+        n_round = len(CLASSES) if tier == 'quick' else 0
+        for i in range(n_cases + n_round):
             c = gen.rand_dist_case(rng, nmin=3, nmax=3, amax=2 if rng.random() < 0.7 else 3, bases=['linear'],
                                    allow_space=False, allow_names=False, max_support=8, klasses=('str', 'tuple'))
             gen.avoid_subnull(c)
@@ -68,6 +88,16 @@ class C15(object):
             # which variables play X, Y and the conditioning / eavesdropper role (not always in ascending order)
             c['assign'] = [0, 1, 2] if (c['bounds'] or rng.random() < 0.4) else rng.choice(
                 [[1, 0, 2], [2, 0, 1], [0, 2, 1], [2, 1, 0], [1, 2, 0]])
+            # a sweep: further parameter vectors evaluated on the SAME optimiser object, handed over either as fresh
+            # arrays or through one preallocated buffer that is refilled in place (x[:] = next point)
+            # (drawn from a generator of its own, so that the population of first points is what it was without sweeps)
+            r2 = random.Random(c['seed'] ^ 0x5EEB)
+            c['sweep'] = [r2.choice(SWEEP_KINDS) for _ in range(r2.choice([0, 1, 1, 2, 2, 3]))]
+            c['reuse'] = r2.choice(['buffer', 'buffer', 'fresh'])
+            if i >= n_cases:
+                c['cls'] = CLASSES[i - n_cases]
+                c['reuse'] = 'buffer'
+                c['sweep'] = [r2.choice(['random', 'zero-rows'])] + c['sweep'][:2]
             yield c
 
     def shrink(self, case):
@@ -113,8 +143,22 @@ class C15(object):
             return ExactCommonInformation(d, [[a], [b]])
         raise ValueError(k)
 
-    def vector(self, case, opt, rs):
-        kind = case['xkind']
+    def vector(self, case, opt, rs, kind=None):
+        kind = case['xkind'] if kind is None else kind
+        if kind == 'optimum' and opt._optvec_size > OPTIMUM_MAX_SIZE:
+            kind = 'random'     # a search over that many parameters costs seconds: a random point instead
+        if kind == 'optimum':
+            # the returned optimum of a short search on this very object (any vector it returns lies in the box, so
+            # every clause applies to it; the quality of the search is not judged)
+            state = np.random.get_state()
+            np.random.seed(case['seed'] % (2 ** 32))
+            try:
+                opt.optimize(niter=1, maxiter=20)
+            except import_dit().exceptions.OptimizationException:
+                return None     # the short search returned nothing: there is no such point (searches are not judged)
+            finally:
+                np.random.set_state(state)
+            return np.clip(np.array(opt._optima, dtype=float), 0.0, 1.0)
         if kind == 'uniform':
             return opt.construct_uniform_initial()
         if kind == 'copy':
@@ -151,12 +195,53 @@ class C15(object):
         if not hasattr(opt, 'objective') or not callable(getattr(opt, 'objective', None)):
             opt.objective = MethodType(opt._objective(), opt)
         rs = np.random.RandomState(case['seed'])
-        x = np.asarray(self.vector(case, opt, rs), dtype=float)
-        joint = np.asarray(opt.construct_joint(x.copy()), dtype=float)
-        markov = case['cls'] in ('WYNER', 'EXACT')
         avs = [(sorted(int(b) for b in a.bases), int(a.bound)) for a in opt._aux_vars]
         r.nontrivial = any(b >= 2 for _, b in avs) and case['xkind'] not in ('constant',)
-        r.detail = {'aux': avs, 'shape': list(joint.shape)}
+        r.detail = {'aux': avs}
+        # ---- the sweep: the case's vector, then further vectors, all on this one optimiser object.  With
+        # reuse = 'buffer' every entry point receives the SAME array object, refilled in place for each point (a
+        # preallocated parameter buffer); with 'fresh' every call receives a new array.  What a vector yields may depend
+        # neither on the vectors evaluated before it nor on the array object that carries it.
+        sweep = list(case.get('sweep') or [])
+        reuse = case.get('reuse', 'fresh')
+        r.features += ['sweep=%d' % len(sweep), 'reuse=%s' % reuse] + ['sweep-x=%s' % k for k in sorted(set(sweep))]
+        buf = None
+        for pi, kind in enumerate([case['xkind']] + sweep):
+            x = self.vector(case, opt, rs, kind)
+            if x is None:
+                r.features.append('optimum-none')
+                continue
+            x = np.asarray(x, dtype=float)
+            if kind == 'optimum' and opt._optvec_size <= OPTIMUM_MAX_SIZE:
+                r.features.append('optimum-evaluated')
+            if reuse == 'buffer':
+                if buf is None:
+                    buf = np.empty_like(x)
+                buf[:] = x
+                arg = (lambda: buf)
+            else:
+                arg = (lambda x=x: x.copy())
+            det = r.detail if pi == 0 else {}
+            self.check_point(case, d, opt, x, arg, avs, drv, r, det)
+            if pi > 0:
+                r.detail.setdefault('sweep', []).append(dict(det, kind=kind))
+                where = 'point #%d (%s) of a sweep on one optimiser object, vectors passed %s: ' % (
+                    pi + 1, kind, 'through one buffer refilled in place' if reuse == 'buffer' else 'as fresh arrays')
+                if r.oracle_fail and not r.oracle_fail.startswith('point #'):
+                    r.oracle_fail = where + r.oracle_fail
+                if r.mismatch and not r.mismatch.startswith('point #'):
+                    r.mismatch = where + r.mismatch
+            if r.bad():
+                return
+        # ---- functional wrappers against their bounds
+        if case['bounds']:
+            self.check_bounds(case, d, r)
+
+    def check_point(self, case, d, opt, x, arg, avs, drv, r, det):
+        """Every clause at one parameter vector x; arg() is the array object handed to the real code."""
+        joint = np.asarray(opt.construct_joint(arg()), dtype=float)
+        markov = case['cls'] in ('WYNER', 'EXACT')
+        det['shape'] = list(joint.shape)
         # ---- properness
         if not np.all(np.isfinite(joint)) or abs(joint.sum() - 1) > 1e-9 or joint.min() < -1e-12:
             r.oracle_fail = 'construct_joint(x) is not a proper joint distribution (sum %r, min %r)' % (joint.sum(), joint.min())
@@ -179,7 +264,7 @@ class C15(object):
                 r.mismatch = 'construct_joint(x) has shape %s, the model %s' % (list(joint.shape), list(model.shape))
             else:
                 dev = float(np.abs(model - joint).max())
-                r.detail['max_dev'] = dev
+                det['max_dev'] = dev
                 if dev > 1e-12:
                     r.mismatch = 'construct_joint(x) differs from the model by %r' % dev
         if not markov:
@@ -191,7 +276,7 @@ class C15(object):
             for idx, v in mj:
                 model[tuple(idx)] = bits2f(v)
             dev = float(np.abs(model - joint).max())
-            r.detail['max_dev'] = dev
+            det['max_dev'] = dev
             if dev > 1e-12:
                 r.mismatch = 'construct_joint(x) differs from the model by %r' % dev
             # ---- restriction to the original variables is the input
@@ -213,13 +298,45 @@ class C15(object):
                         r.oracle_fail = ('auxiliary variable #%d depends on a variable outside its declared parents %s '
                                          '(conditional spread %r)' % (i, bases, float(np.nanmax(spread))))
                         return
+        # ---- the optimiser's second construction of the joint of the same vector (the one construct_distribution is
+        # built from) is the same distribution: summed over the original variables it is construct_joint(x)
+        full = np.asarray(opt.construct_full_joint(arg()), dtype=float)
+        nvar = full.ndim - joint.ndim
+        if nvar != len(self.built_on(case)) or full.shape[nvar:] != joint.shape:
+            r.mismatch = 'construct_full_joint(x) has shape %s, construct_joint(x) %s, %d original variables' % (
+                list(full.shape), list(joint.shape), len(self.built_on(case)))
+            return
+        if not np.all(np.isfinite(full)) or abs(full.sum() - 1) > 1e-9 or full.min() < -1e-12:
+            r.oracle_fail = 'construct_full_joint(x) is not a proper joint distribution (sum %r, min %r)' % (full.sum(), full.min())
+            return
+        fdev = float(np.abs(full.sum(axis=tuple(range(nvar))) - joint).max())
+        det['full_dev'] = fdev
+        if fdev > 1e-12:
+            r.oracle_fail = ('construct_full_joint(x) summed over the original variables differs from construct_joint(x) '
+                             'by %r: the two joints the optimiser builds from one vector are different distributions' % fdev)
+            return
+        if markov:
+            # ---- admissibility of a vector is constraint_match_joint(x) = 0: it has to be the actual mismatch
+            # 100 |restriction of the joint to (X0, X1, Z) - input|^2, the input tabulated here from the case
+            target = self.markov_target(case, d, opt, joint.shape[:-1])
+            want = float((100 * (joint.sum(axis=-1) - target) ** 2).sum())
+            got = float(opt.constraint_match_joint(arg()))
+            det['constraint'] = got
+            if not (abs(got - want) <= 1e-9 * max(1.0, abs(want))):
+                r.oracle_fail = ('constraint_match_joint(x) = %r but 100 |restriction of construct_joint(x) to the original '
+                                 'variables - input|^2 = %r' % (got, want))
+                return
         # ---- objective and named quantities, recomputed from the joint
-        self.check_objective(case, opt, x, joint, r)
+        self.check_objective(case, opt, x, joint, r, arg, det)
         if r.bad():
             return
+        if markov:
+            self.check_markov_distribution(case, opt, full, arg, r, det)
+            if r.bad():
+                return
         # ---- construct_distribution
         if not markov and case['cls'] in ('ITC', 'IDTC', 'ICAEKL', 'IB', 'OWSKAR'):
-            cd = opt.construct_distribution(x.copy(), cutoff=1e-9)
+            cd = opt.construct_distribution(arg(), cutoff=1e-9)
             m = cd.marginal(list(range(3)))
             src = {tuple(o): float(Fraction(p)) for o, p in zip(case['outs'], case['pmf']) if Fraction(p) > 0}
             # the conditioning variable comes back as the optimiser's compressed index (a relabelling of its
@@ -252,13 +369,67 @@ class C15(object):
             if not ok:
                 r.oracle_fail = 'construct_distribution(x): the marginal on the original variables is not the input (up to relabelling the conditioning variable)'
                 return
-        # ---- functional wrappers against their bounds
-        if case['bounds']:
-            self.check_bounds(case, d, r)
 
-    def check_objective(self, case, opt, x, joint, r):
+    def built_on(self, case):
+        """Positions of the variables of the distribution the optimiser was built on."""
+        return [0, 1] if case['cls'] == 'RDH' else [0, 1, 2]
+
+    def markov_crvs(self, case):
+        a, b, c = case.get('assign', [0, 1, 2])
+        return [c] if (case['cls'] == 'WYNER' and case['seed'] % 2) else []
+
+    def markov_target(self, case, d, opt, shape):
+        """The input of a Markov-variable optimiser as a table over (X0, X1, Z), from the case's own outcomes and
+        probabilities; only the numbering of each variable's symbols is the optimiser's (a relabelling)."""
+        a, b, c = case.get('assign', [0, 1, 2])
+        groups = [[a], [b], self.markov_crvs(case)]
+        maps = [u.mapping for u in opt._unqs]
+        target = np.zeros(shape)
+        for o, p in zip(d.outcomes, d.pmf):
+            p = float(p)
+            if p == 0:
+                continue
+            idx = tuple(maps[g][tuple(o[i] for i in grp)] for g, grp in enumerate(groups))
+            target[idx] += p
+        return target
+
+    def check_markov_distribution(self, case, opt, full, arg, r, det):
+        """Wyner / exact common information: the objective is the named quantity evaluated by definition on the
+        distribution construct_distribution(x) returns for the same vector (variables at their original positions,
+        W appended)."""
+        pos = full[full > 0]
+        if pos.size and pos.min() <= 1e-7:
+            # an entry near dit's null tolerance (1e-8) may be trimmed on the way to a Distribution: not judged
+            return
+        cd = opt.construct_distribution(arg(), cutoff=0.0)
+        nv = cd.outcome_length()
+        if nv != 4:
+            r.mismatch = 'construct_distribution(x) has %d variables (3 original positions and W expected)' % nv
+            return
+        syms = [{} for _ in range(nv)]
+        rows = []
+        for o, v in zip(cd.outcomes, cd.pmf):
+            rows.append((tuple(syms[i].setdefault(o[i], len(syms[i])) for i in range(nv)), float(v)))
+        T = np.zeros([max(1, len(m)) for m in syms])
+        for idx, v in rows:
+            T[idx] += v
+        a, b, c = case.get('assign', [0, 1, 2])
+        crvs = self.markov_crvs(case)
+        obj = float(opt.objective(arg()))
+        if case['cls'] == 'WYNER':
+            name, want = 'I[X0,X1 : W | Z]', cmi(T, [a, b], [3], crvs)
+        else:
+            name, want = 'H[W | Z]', Hax(T, set([3] + crvs)) - (Hax(T, set(crvs)) if crvs else 0.0)
+        det['objective_on_distribution'] = want
+        if not (abs(obj - want) <= 1e-9 * max(1.0, abs(want))):
+            r.oracle_fail = ('objective(x) = %r but %s evaluated by definition on construct_distribution(x) is %r'
+                             % (obj, name, want))
+
+    def check_objective(self, case, opt, x, joint, r, arg=None, det=None):
         k = case['cls']
-        obj = float(opt.objective(x.copy()))
+        arg = arg or (lambda: x.copy())
+        det = r.detail if det is None else det
+        obj = float(opt.objective(arg()))
         X, Y, Z, W = [0], [1], [2], [3]
 
         def expect(name, got, want, tol=1e-9):
@@ -311,7 +482,7 @@ class C15(object):
             if expect('objective = H[W | Z]', obj, want):
                 if abs(cmi(joint, [0], [1], [2, 3])) > 1e-9:
                     r.oracle_fail = 'X0 and X1 are not conditionally independent given (W, Z)'
-        r.detail['objective'] = obj
+        det['objective'] = obj
 
     def check_bounds(self, case, d, r):
         dit = import_dit()
